@@ -43,12 +43,64 @@ const pluginContext parser.ContextType = 77
 
 // sprinkleDropMarkers inserts marker statements (`drop_me;`) into the statement lists of prog.
 func sprinkleDropMarkers(prog *gen.Node, r *rand.Rand) int {
+	return sprinkleMarkers(prog, r, dropMarker)
+}
+
+// expandMarker is a macro of a token-level plugin: its token interceptor replaces the word by the tokens of two
+// statements (`enter(); leave()`), every one of them carrying the position of the word it came from.
+const expandMarker = "expand_me"
+
+// c16Expand (single goroutine per worker): recordContexts installs the macro-expanding token interceptor.
+var c16Expand bool
+
+func expandingInterceptor() func(l *lexer.Lexer, next func() token.Token) token.Token {
+	// the plugin's state belongs to the lexer at hand: one builder builds many lexers (nested parses)
+	type state struct {
+		queue     []token.Token
+		macroLine int
+	}
+	states := map[*lexer.Lexer]*state{}
+	return func(l *lexer.Lexer, next func() token.Token) token.Token {
+		st := states[l]
+		if st == nil {
+			st = &state{macroLine: -1}
+			states[l] = st
+		}
+		if len(st.queue) > 0 {
+			tok := st.queue[0]
+			st.queue = st.queue[1:]
+			return tok
+		}
+		tok := next()
+		if st.macroLine >= 0 {
+			// the lexer skips the blanks and line breaks in front of the next lexeme on every request, also on the
+			// requests this interceptor answered from its queue: the plugin restores the flag from the positions
+			if tok.Start.Line > st.macroLine {
+				tok.AfterNewline = true
+			}
+			st.macroLine = -1
+		}
+		if tok.Type != token.IDENT || tok.Literal != expandMarker {
+			return tok
+		}
+		mk := func(tt token.Type, lit string) token.Token {
+			return token.Token{Type: tt, Literal: lit, Start: tok.Start, End: tok.End}
+		}
+		first := mk(token.IDENT, "enter")
+		first.AfterNewline, first.LeadingComments = tok.AfterNewline, tok.LeadingComments
+		st.queue = []token.Token{mk(token.LPAREN, "("), mk(token.RPAREN, ")"), mk(token.SEMICOLON, ";"), mk(token.IDENT, "leave"), mk(token.LPAREN, "("), mk(token.RPAREN, ")")}
+		st.macroLine = tok.End.Line
+		return first
+	}
+}
+
+func sprinkleMarkers(prog *gen.Node, r *rand.Rand, marker string) int {
 	n := 0
 	add := func(list []*gen.Node) []*gen.Node {
 		var out []*gen.Node
 		for _, s := range list {
 			if r.IntN(4) == 0 {
-				out = append(out, gen.ExprStmt(gen.Id(dropMarker)))
+				out = append(out, gen.ExprStmt(gen.Id(marker)))
 				n++
 			}
 			out = append(out, s)
@@ -73,6 +125,9 @@ func recordContexts(src string, m Mode, nestEvery int, coin *rand.Rand, drop boo
 	b := newBuilder(m)
 	if fnPlugin > 0 {
 		b = fnKeywordBuilder(m, fnPlugin == 2)
+	}
+	if c16Expand {
+		b.LexerBuilder.UseTokenInterceptor(expandingInterceptor())
 	}
 	depth, calls := 0, 0
 	record := func(kind string, p *parser.Parser) {
@@ -338,11 +393,22 @@ func runC16Deep(t *fw.T) {
 
 func checkContexts(t *fw.T, r *rand.Rand, prog *gen.Node, stratum string) {
 	// a third of the programs contain marker statements that a statement interceptor strips (returns nil for)
-	drop := r.IntN(3) == 0
+	x := r.IntN(6)
+	drop := x < 2
 	if drop {
 		t.Count("statements_stripped_by_an_interceptor", sprinkleDropMarkers(prog, r))
 	}
+	// a sixth contains macro words that a token interceptor expands into two statements whose tokens all carry the
+	// position of the word: where a statement list stands does not depend on where its tokens say they came from
+	c16Expand = x == 2
+	defer func() { c16Expand = false }()
+	if c16Expand {
+		t.Count("macro_words_expanded_by_a_token_interceptor", sprinkleMarkers(prog, r, expandMarker))
+	}
 	l := stdLayouts[r.IntN(len(stdLayouts))]
+	if c16Expand {
+		l.E.Parens = 0 // a macro word expands to statements: it stands where a statement can stand, not inside parentheses
+	}
 	rd := gen.Render(prog, r, l.E, l.L)
 	byPos := map[token.Position]*gen.Tok{}
 	maxDepth := 0
